@@ -1039,6 +1039,8 @@ class Interp:
 
     def x_While(self, st, env, module):
         n = 0
+        fresh_each = True          # did every iteration so far consult the oracle (a data-dependent loop over unknown input)?
+        t_prev = len(self.o.taken)
         while True:
             cond = self.eval(st.test, env, module)
             if isinstance(cond, (Unknown, Iv)) and n >= 2:
@@ -1047,6 +1049,14 @@ class Interp:
                 break
             if not self.truth(cond, short(st.test)):
                 break
+            if n:
+                fresh_each = fresh_each and len(self.o.taken) > t_prev
+            t_prev = len(self.o.taken)
+            if n >= 3 and fresh_each:
+                # `while True: … if <unknown>: break …` scanning unknown input: the paths that leave after 1, 2 and 3 rounds
+                # are explored; the ones that stay longer repeat them and are dropped (recorded)
+                self.truncated_loops += 1
+                raise SkipPath(f"data-dependent loop at {module.rel}:{st.lineno} unrolled 3 times")
             n += 1
             if n > self.MAX_LOOP:
                 if self.opaque_mutators:
@@ -1086,6 +1096,13 @@ class Interp:
                 if n > 4 * self.MAX_LOOP:
                     raise Imprecise(f"generator {it.qual} yields more than {4 * self.MAX_LOOP} items at {where_}")
                 yield v
+        elif isinstance(it, range) and len(it) > 2000 and getattr(self, "_search_depth", 0) > 0:
+            # a search (`next(x for x in range(big) if …)`) over a long range: the first two candidates concretely, then one
+            # symbolic candidate standing for any later one; if that is refused too, the search found nothing
+            self.truncated_loops += 1
+            yield it[0]
+            yield it[1]
+            yield Unknown(f"{it!r}[i]", kind="int")
         else:
             yield from self.iterate(it, where_)
 
@@ -1107,7 +1124,12 @@ class Interp:
         raise Imprecise(f"generator method {name} is not modelled")
 
     def _next(self, g, default):
-        kind, v = g.advance()
+        # `next(<generator>, default)` is a search: the generator is advanced to its first element only
+        self._search_depth = getattr(self, "_search_depth", 0) + 1
+        try:
+            kind, v = g.advance()
+        finally:
+            self._search_depth -= 1
         if kind == "yield":
             return v
         if default:
@@ -2150,6 +2172,8 @@ class Interp:
                 except TypeError as ex:
                     raise PyRaise(ExcVal("TypeError", (str(ex),)))
             if any(_opaque(a) for a in args):
+                if name in ("chr", "ord", "abs", "round", "int", "float", "repr", "pow", "divmod") and not kwargs and all(isinstance(a, (Unknown, int, float, str, bool)) for a in args):
+                    return Unknown(f"{name}({', '.join(_sym(a) for a in args)})")       # a pure function of its argument: the same question, the same symbol
                 return self.fresh(name)
             try:
                 return getattr(_b, name)(*args, **kwargs)
